@@ -21,6 +21,13 @@ from vlib.impl import use_repo
 
 use_repo()
 
+import sys  # noqa: E402
+
+# halmos/__main__.py lifts CPython's int<->str digit limit (z3 numerals of large concrete chunks go through
+# str(int)); the harness runs the library in the same configuration as the tool
+if hasattr(sys, "set_int_max_str_digits"):
+    sys.set_int_max_str_digits(0)
+
 import z3  # noqa: E402
 from z3 import BitVec, BitVecVal, Bool, is_bv, is_bv_value  # noqa: E402
 
